@@ -18,10 +18,10 @@ func init() {
 				"C15.db (each of Body, Signature, creatorID, otherParentCreatorID, selfParentIndex, otherParentIndex, topologicalIndex, lastAncestors, firstDescendants is copied by MarshalDB into one wrapper field and copied back from that same field by UnmarshalDB), " +
 				"C15.caches (hash/hex/creator/id/peerSet cache fields are unexported — never serialised — and written only by their lazy getters), " +
 				"C15.frame (no json tag hides or renames a field of a transported type, none has a custom MarshalJSON; Frame.Hash = SHA256(Frame.Marshal()) with a canonical handle; EventBody/BlockBody hashes are SHA256 of their Marshal). " +
-				"C15.firstround (which validators get a root in a frame depends on their first round, which must not depend on the order in which a frame's peer-set map is replayed; shared with C13.resetorder), C15.shared (the hashed payload slices of an existing event / block / frame are never reordered or overwritten in place: the memoised hash would no longer be the hash of the content; shared with C02.shared), C15.keyarg (wire parents are resolved, when they left the in-memory window, through the database by (participant, index): the key's integer component is that index verbatim, so the resolved parent is the referenced event and the rebuilt hash is the signed one), C15.digest (each hash is SHA256 over Marshal() of the receiver itself — not of a partial copy —, Marshal encodes the receiver, no exported field is tag-hidden). NOT decided: nil-vs-empty slice behaviour of the two JSON libraries for arbitrary values (a value-level round-trip question)."},
+				"C15.roll (wire parents are resolved by (creator, index) through the per-participant rolling window: when it rolls it keeps a suffix, so position index-oldest still names the event of that index; shared with C16.roll), C15.firstround (which validators get a root in a frame depends on their first round, which must not depend on the order in which a frame's peer-set map is replayed; shared with C13.resetorder), C15.shared (the hashed payload slices of an existing event / block / frame are never reordered or overwritten in place: the memoised hash would no longer be the hash of the content; shared with C02.shared), C15.keyarg (wire parents are resolved, when they left the in-memory window, through the database by (participant, index): the key's integer component is that index verbatim, so the resolved parent is the referenced event and the rebuilt hash is the signed one), C15.digest (each hash is SHA256 over Marshal() of the receiver itself — not of a partial copy —, Marshal encodes the receiver, no exported field is tag-hidden). NOT decided: nil-vs-empty slice behaviour of the two JSON libraries for arbitrary values (a value-level round-trip question)."},
 		Rules: []ruleFunc{c15wire, c15db, c15caches, c15frame, func(p *Prog, r *Report) {
 			digestRule(p, r, "C15.digest", []string{"EventBody", "BlockBody", "Frame", "InternalTransactionBody", "Root"})
-		}, func(p *Prog, r *Report) { keyArgRule(p, r, "C15.keyarg") }, func(p *Prog, r *Report) { sharedSliceRule(p, r, "C15.shared") }, func(p *Prog, r *Report) { firstRoundRule(p, r, "C15.firstround") }},
+		}, func(p *Prog, r *Report) { keyArgRule(p, r, "C15.keyarg") }, func(p *Prog, r *Report) { sharedSliceRule(p, r, "C15.shared") }, func(p *Prog, r *Report) { firstRoundRule(p, r, "C15.firstround") }, func(p *Prog, r *Report) { rollRule(p, r, "C15.roll") }},
 	})
 }
 
